@@ -31,6 +31,7 @@ def run(c):
     r8(c)
     from rules import c07
     c07.r5(c, rid="C09.R9")
+    r10(c)
 
 
 def apply_logics(repo):
@@ -443,3 +444,34 @@ def r8(c):
                        f"collapse into one in the deploy stream while patch() prints both (vendors: {', '.join(sorted(users))})", key_text="path-keyed-mapping")
         else:
             c.holds("C09.R8", repo.loc(q[0], fn), f"{q[1].name}.cmd_paths", f"accumulator kind {kind}")
+
+
+def r10(c):
+    repo = c.repo
+    c.rule("C09.R10", "a command carries every dialog answer of its rule: deploy.make_cmd_params turns each entry of the rule's dialogs into one Question (a loop / comprehension "
+                      "over <handler>._dialogs.items() without filter, skip or break) and rb_question_to_question answers with a Question or raises — it never returns None / "
+                      "falls off its end; a dialog that is dropped silently leaves the device waiting at a prompt the rule knew the answer to")
+    m = repo.module(DEPLOY)
+    fn = repo.func(DEPLOY, "make_cmd_params")
+    c.count("functions", 2)
+    gm = GuardMap(fn)
+    apps = [x for x in calls_in(fn) if isinstance(x.func, ast.Attribute) and x.func.attr == "append" and gm.in_loop(x)]
+    loops = [l for x in apps for l in gm.in_loop(x) if isinstance(l, ast.For) and "_dialogs" in norm(l.iter)]
+    if not apps or not loops:
+        raise AnchorError("make_cmd_params: the loop turning the rule's dialogs into questions not found")
+    lp = loops[-1]
+    in_lp = [x for x in apps if any(l is lp for l in gm.in_loop(x))]
+    rule_p = fn.args.args[0].arg if fn.args.args else "rule"
+    ok = len(in_lp) == 1
+    if ok:
+        f = gm.formula(in_lp[0], G.GuardEnv())
+        extra = [a for a in G.atoms(f) if a.replace(" ", "") not in (rule_p, f"bool({rule_p})", f"{rule_p}isnotNone")]
+        ok = not extra and not [n for n in walk_no_nested(lp) if isinstance(n, (ast.Continue, ast.Break))]
+    c.check("C09.R10", ok, repo.loc(m, lp), "make_cmd_params/every-dialog", "not every dialog of the matched rule becomes a question of the command (an entry is filtered out or skipped)", key_text="dialog-skipped")
+    q = repo.func(DEPLOY, "rb_question_to_question")
+    rets = [n for n in walk_no_nested(q) if isinstance(n, ast.Return)]
+    bad = [r for r in rets if r.value is None or (isinstance(r.value, ast.Constant) and r.value.value is None)]
+    from sa.flow import always_abrupt
+    falls = always_abrupt(q.body) is None
+    c.check("C09.R10", not bad and not falls and bool(rets), repo.loc(m, bad[0] if bad else q), "rb_question_to_question/answers-or-raises", "rb_question_to_question can answer None (or fall off its end): "
+            "the dialog is silently left out of the command's questions", key_text="question-none")
